@@ -248,6 +248,8 @@ def pipeline_diff(req):
                 elif got[1] != exp_out[1]:
                     if exp_out[1] == "ExperimentConditionalFailedError" or got[1] == "ExperimentConditionalFailedError":
                         fail("routing", case)
+                        if got[1] != "ExperimentConditionalFailedError":
+                            fail("internal-error", case)     # neither a group nor the dedicated error
                     elif got[1] in ("SyntaxError", "NameError", "AttributeError"):
                         fail("internal-error", case)
             if ev2 is not None:
